@@ -158,7 +158,9 @@ func c11Doc(r *gen.Rand, nRoots int, failing map[int]bool, stage string) (model.
 		for li, l := range lines {
 			text := l.Text
 			if failing[i] && stage == "generator" && li == len(lines)-1 {
-				text = "  x no bullet here" // malformed line: the generator stage fails on this block
+				// malformed line: the generator stage fails on this block - no bullet, an item without
+				// text, a heading without text (each is another error path of the shared parser)
+				text = []string{"  x no bullet here", "  - ", "#", "## ", "  x no bullet here"}[(i+nRoots)%5]
 			}
 			sb.WriteString(text + "\n")
 		}
